@@ -422,7 +422,7 @@ class euler1d(euler):
         # C- invariant (or C+ according to dir)
         a0 = np.sqrt(g*data[2]/data[0])
         a1 = np.sqrt(g*p1/rho1)
-        u1 = data[1] + dir*2/gmu*(a1-a0)
+        u1 = data[1] - dir*2/gmu*(a1-a0) # keeps the outgoing invariant u + dir*2a/(gamma-1)
         return [ rho1, u1, p1 ]
 
     @_bcdict.register()
